@@ -3,11 +3,12 @@ open Model
 open Util
 
 let zi (i : int) = Values.z_to_coq (ZZ.of_int i)
-let name_id = function "srv.test" -> 1 | "other.test" -> 2 | "evil.test" -> 3 | _ -> 9
+let name_id = function "srv.test" -> 1 | "other.test" -> 2 | "evil.test" -> 3 | "pair.test" -> 4 | _ -> 9
 let issuer_of = function "ca1" -> CA1 | "ca2" -> CA2 | _ -> SelfSigned
 
 let cert_of = function
   | "valid" -> { c_issuer = CA1; c_name = zi 1; c_expired = false }
+  | "pairvalid" -> { c_issuer = CA1; c_name = zi 4; c_expired = false }
   | "otherca" -> { c_issuer = CA2; c_name = zi 1; c_expired = false }
   | "othername" -> { c_issuer = CA1; c_name = zi 2; c_expired = false }
   | "expired" -> { c_issuer = CA1; c_name = zi 1; c_expired = true }
@@ -57,6 +58,35 @@ let run_case toks obs =
            else if got <> dres_s want then
              Printf.sprintf "MISMATCH %s sig=tls-outcome:%s:%s the dial returned %s, the model says %s" id (dres_s want) got got (dres_s want)
            else Printf.sprintf "AGREE %s nontrivial" id)
+  | "tlspair" :: id :: rest ->
+      let k = parse_kv rest in
+      (match Hashtbl.find_opt obs id with
+       | None -> Printf.sprintf "MISMATCH %s no-observation" id
+       | Some ot ->
+           let okv = parse_kv (List.tl (List.tl ot)) in
+           if kv "panic" okv <> "" then Printf.sprintf "PROPFAIL %s sig=panic the dial panicked: %s" id (kv "panic" okv) else
+           let ctor_of i =
+             match kv (Printf.sprintf "ctor%d" i) k with
+             | "pem" | "pemdialable" -> CtorPEM (true, [ issuer_of (kv (Printf.sprintf "roots%d" i) k) ])
+             | "config" -> CtorConfig { t_roots = (match kv (Printf.sprintf "roots%d" i) k with "" | "none" -> None | r -> Some [ issuer_of r ]);
+                                        t_name = (match kv (Printf.sprintf "name%d" i) k with "" | "-" -> None | n -> Some (zi (name_id n)));
+                                        t_skip = false }
+             | _ -> CtorDefault in
+           let got = split_on ',' (kv "results" okv) in
+           if List.length got <> 2 then Printf.sprintf "MISMATCH %s two dials scripted, %d results" id (List.length got) else
+           let res = ref None in
+           List.iteri (fun i g ->
+             if !res = None then
+               match String.split_on_char '/' g with
+               | [ r; xp; sv ] ->
+                   let want = dial (ctor_of (i + 1)) (zi (name_id (kv "host" k))) (cert_of (kv "cert" k)) Handshakes in
+                   if r = "ok" && want <> DROk then
+                     res := Some (Printf.sprintf "PROPFAIL %s sig=tls-unauthenticated-dial:second-transport:%s dial #%d (its own roots/config do not accept the server's certificate: %s) succeeded%s" id (dres_s want) (i + 1) (dres_s want)
+                                    (if sv = "resumed" then " by resuming a session another transport had established" else ""))
+                   else if xp = "true" && r <> "ok" then res := Some (Printf.sprintf "PROPFAIL %s sig=tls-transport-after-failed-dial dial #%d failed (%s) but returned a transport" id (i + 1) r)
+                   else if r <> dres_s want then res := Some (Printf.sprintf "MISMATCH %s sig=tls-outcome:pair dial #%d returned %s, the model says %s" id (i + 1) r (dres_s want))
+               | _ -> res := Some (Printf.sprintf "MISMATCH %s malformed" id)) got;
+           match !res with Some r -> r | None -> Printf.sprintf "AGREE %s nontrivial" id)
   | "tlsseq" :: id :: rest ->
       let k = parse_kv rest in
       (match Hashtbl.find_opt obs id with
